@@ -75,7 +75,7 @@ package nsqd
 //@ chaninv chan[*Message](v) := v != nil
 //@ func writeMessageToBackend(msg *Message, bq BackendQueue) error
 //@   nochan
-//@   props C01 C05 C13 C07
+//@   props C01 C05 C13 C07 C12
 //@   requires[queue] bq != nil
 //@   requires[message] msg != nil
 //@   ensures[encode-error-returned] wErrs != old(wErrs) ==> result != nil && result == wLastErr && r4ABqPuts == old(r4ABqPuts)
